@@ -861,6 +861,10 @@ def classify(rj, scen_lines, mainnet):
     if ln["ev"] == "End":
         if ln["a"].get("spin"):
             return "C09", "liveness/spin"
+        ev_all, _ = _event_table(scen_lines)
+        miss = [ev_all.get(i, {}) for i in ln["a"].get("missing", [])]
+        if miss and all(m.get("cl") == 255 for m in miss):
+            return "C09", "liveness/final-message-not-forwarded/cl=255"
         return "C09", "liveness/final-message-not-forwarded"
     if ln["ev"] == "Req":
         a = ln["a"]
@@ -875,3 +879,93 @@ def classify(rj, scen_lines, mainnet):
         return "C08+C09", "request/%s%s/not-allowed/fet=%s,han=%s,reo=%s" % (a["route"], "-failed" if a.get("fail") else "", fr[0].get("fet", {}).get("st"),
                                                                           fr[0].get("han", {}).get("st"), fr[0].get("reo", {}).get("st"))
     return "C08+C09", "%s/not-allowed" % ln["ev"]
+
+
+# =============================================================================== fixed scenarios (independent of VERIF_SEED)
+
+def pinned(prop):
+    """A few hand-written scripts that every run includes, so that the history classes of DESIGN.md section 7 are exercised
+    whatever the seed: the seeded and TLC-generated scenarios vary around them."""
+    res = []
+
+    def start(mainnet=False, page=2):
+        g = WGen(random.Random(0)).new(mainnet=mainnet, page=page)
+        g.w.height = g.base_h = 100
+        g.sc["pollMs"] = 3
+        g.op(op="tok", id="t1", shape="m1")
+        g.op(op="tok", id="t2", shape="failed1")
+        g.op(op="tok", id="t3", shape="failed2")
+        g.step("count", 1)
+        return g
+
+    def done(g, name):
+        sc = finish_scenario(g.sc, "pinned", "pinned:" + name)
+        if sc is None:
+            raise vlib.Broken("pinned scenario %s violates the time margins" % name)
+        res.append(sc)
+
+    if prop == "C08":
+        # a look-alike event of another contract in the tx of a token-bridge message, then a re-observation request
+        g = start()
+        b = g.block(ts=-5000)
+        e = g.good(b, cl=1)
+        g.foreign(e, cl=0)
+        g.step(None); g.raise_height(3)
+        g.step(None); g.op(op="req", tx=e["tx"])
+        done(g, "reobs-lookalike")
+        # mainnet transfer in a 100-s-old block: held by the polling path, re-observation requested
+        g = start(mainnet=True)
+        b = g.block(ts=-100)
+        e = g.good(b, cl=1)
+        g.step(None); g.raise_height(3)
+        g.step(None); g.op(op="req", tx=e["tx"])
+        done(g, "reobs-young-mainnet-transfer")
+        # the tx is orphaned and mined again: events/tx-id returns both blocks' events
+        g = start()
+        b = g.block(ts=-5000)
+        e = g.good(b, cl=0)
+        g.step(None); g.op(op="reorg", b=b)
+        nb = g.block(ts=-4300, h=g.w.blocks[b]["h"])
+        g.good(nb, cl=0, tx=e["tx"])
+        g.step(None); g.raise_height(2)
+        g.step(None); g.op(op="req", tx=e["tx"])
+        done(g, "reobs-reincluded-tx")
+        # polling path: orphaned before confirmation, foreign sender, mismatching attestation, cl not reached
+        g = start()
+        b = g.block(ts=-5000)
+        g.good(b, cl=0); g.good(b, cl=0, tb=False); g.good(b, kind="attest", tok="t1", claim="m2", cl=0); g.good(b, cl=9)
+        b2 = g.block(ts=-5000)
+        g.good(b2, cl=2)
+        g.step("is-main", 1); g.op(op="reorg", b=b2)
+        g.step(None); g.raise_height(3)
+        done(g, "poll-mixed")
+    if prop == "C09":
+        # events appended between the count request and the first page request
+        g = start(page=2)
+        b = g.block(ts=-5000)
+        g.good(b, cl=0); g.good(b, cl=0)
+        g.step("count", 2)
+        g.good(b, cl=0)
+        g.step(None); g.raise_height(2)
+        done(g, "append-after-count")
+        # one malformed event between two good ones
+        for bad in ("chain70000", "fields5"):
+            g = start(page=3)
+            b = g.block(ts=-5000)
+            g.good(b, cl=0); g.emit(b, ok=False, tb=False, bad=bad); g.good(b, cl=0)
+            g.step(None); g.raise_height(2)
+            done(g, "malformed-" + bad)
+        # another event index on the stream
+        g = start(page=3)
+        b = g.block(ts=-5000)
+        g.good(b, cl=0); g.emit(b, ei=1); g.good(b, cl=0)
+        g.step(None); g.raise_height(2)
+        done(g, "wrong-event-index")
+        # attestation-shaped events of a foreign caller naming contracts whose metadata call fails in position 2 / 3
+        for tok in ("t2", "t3"):
+            g = start(page=3)
+            b = g.block(ts=-5000)
+            g.good(b, cl=0); g.good(b, kind="attest", tok=tok, claim="m1", cl=0, tb=False); g.good(b, cl=0)
+            g.step(None); g.raise_height(2)
+            done(g, "metadata-call-" + ("failed1" if tok == "t2" else "failed2"))
+    return res
